@@ -823,3 +823,10 @@ pub mod test {
         }
     }
 }
+
+// verification hook (guard: --cfg ipa_verif)
+#[cfg(all(test, ipa_verif))]
+#[allow(warnings, clippy::all, clippy::pedantic)]
+mod verif {
+    include!(concat!(env!("IPA_VERIF_DIR"), "/h12_prss.rs"));
+}
